@@ -734,7 +734,8 @@ type Spec struct {
 
 // Engine holds the analysis context.
 type Engine struct {
-	subBase map[*ssa.Function]map[ssa.Value]ssa.Value
+	subBase      map[*ssa.Function]map[ssa.Value]ssa.Value
+	constCmpOnly map[*ssa.Function]map[ssa.Value]bool
 	// Checked: positions of the index / slice expressions on the input that any analysis of this engine has judged.
 	Checked   map[token.Pos]bool
 	W         *core.World
@@ -1029,12 +1030,15 @@ func (e *Engine) computeRelevance(spec *Spec) {
 	fns := map[*ssa.Function]bool{spec.Fn: true}
 	for changed := true; changed; {
 		changed = false
+		// the value classifications below depend on the relevance computed so far
+		e.signOnly, e.constCmpOnly, e.idxLike = nil, nil, nil
 		for fn := range fns {
 			if e.relevanceOf(fn, fns) {
 				changed = true
 			}
 		}
 	}
+	e.signOnly, e.constCmpOnly, e.idxLike = nil, nil, nil
 }
 
 // relevanceOf recomputes fn's relevant values; reports whether anything (incl. callee result/param demands) grew.
@@ -1138,7 +1142,7 @@ func (e *Engine) relevanceOf(fn *ssa.Function, fns map[*ssa.Function]bool) bool 
 		case *ssa.Extract:
 			mark(v.Tuple)
 			if call, ok := v.Tuple.(*ssa.Call); ok {
-				if callee := call.Call.StaticCallee(); callee != nil && e.Inline[callee] {
+				if callee := call.Call.StaticCallee(); callee != nil && e.Inline[callee] && !e.isCounter(fn, v) {
 					if e.relRes[callee] == nil {
 						e.relRes[callee] = map[int]bool{}
 					}
